@@ -5226,6 +5226,9 @@ class PyCdlib:
                     if id(linkrec) != id(entry):
                         new_list.append((linkrec, is_pvd))
                 entry.inode.linked_records = new_list
+                # The boot info table only exists for El Torito's sake, so
+                # stop patching it into the (former) boot file.
+                entry.inode.boot_info_table = None
 
         num_bytes_to_remove += len(self.eltorito_boot_catalog.record())
 
